@@ -128,6 +128,9 @@ func regenFilesPlain(v regenVersion) map[string]string {
 	if v.has("eqB") {
 		fmt.Fprintf(&b, "\nfunc useEqB(x, y %s) bool {\n\treturn deriveEqualB(x, y)\n}\n", regenGoType[v.Vty])
 	}
+	if v.has("keys") {
+		fmt.Fprintf(&b, "\nfunc useKeys(m %s) %s {\n\treturn deriveKeys(m)\n}\n", regenGoType[v.Mty], regenKeyType[v.Mty])
+	}
 	if v.has("nest") {
 		fmt.Fprintf(&b, "\nfunc useNest(m %s) %s {\n\treturn deriveSort(deriveKeys(m))\n}\n", regenGoType[v.Mty], regenKeyType[v.Mty])
 	}
@@ -135,6 +138,8 @@ func regenFilesPlain(v regenVersion) map[string]string {
 		b.WriteString("\nfunc useCmp(c, d *T1) int {\n\treturn deriveCompare(c, d)\n}\n")
 	}
 	fs["p/f1.go"] = b.String()
+	// an external test package in the same directory (the loader creates it next to p)
+	fs["p/x_test.go"] = "package p_test\n\nvar X = 1\n"
 	return fs
 }
 
@@ -429,7 +434,7 @@ func subCases(rc *regenCase) []*regenCase {
 			}
 		}
 		v.Present = nil
-		for _, s := range []string{"eqA", "eqB", "nest", "cmp"} {
+		for _, s := range []string{"eqA", "eqB", "keys", "nest", "cmp"} {
 			if present[s] {
 				v.Present = append(v.Present, s)
 			}
@@ -611,7 +616,14 @@ func checkC07(c *core.Ctx) error {
 		}
 	}
 	if valid*10 < len(results)*8 {
-		return fmt.Errorf("only %d of %d histories are realisable (v1 and scratch(v2) must generate): %s", valid, len(results), results[0].note)
+		note := ""
+		for _, r := range results {
+			if !r.valid {
+				note = r.rc.String() + ": " + r.note
+				break
+			}
+		}
+		return fmt.Errorf("only %d of %d histories are realisable (v1 and scratch(v2) must generate): %s", valid, len(results), note)
 	}
 	st, err := ValidateTraces(c, outs)
 	if err != nil {
@@ -794,7 +806,7 @@ func checkC07(c *core.Ctx) error {
 	c.Set("evaluations", len(results))
 	c.Set("distinct_nontrivial", nontriv)
 	c.Set("model_drift_runs", drift)
-	c.Set("rule", "TLC enumerates Regen.tla (all versions of a 4-call-site package x <=2 edits (add/remove call, retype field, retype argument, retype the map feeding a nested derive call) x one interrupted write of the old or new output in 5 truncation classes); all single-edit histories plus a seeded sample are realised: v1 generated, edited to v2, derived.gen.go truncated at byte offsets of the class, one real run compared with a scratch run; non-trivial = two edits or a truncated file")
+	c.Set("rule", "TLC enumerates Regen.tla (all versions of a 5-call-site package (incl. the inner call of the nested one on its own and an external test package in the directory) x <=2 edits (add/remove call, retype field, retype argument, retype the map feeding a nested derive call) x one interrupted write of the old or new output in 5 truncation classes); all single-edit histories plus a seeded sample are realised: v1 generated, edited to v2, derived.gen.go truncated at byte offsets of the class, one real run compared with a scratch run; non-trivial = two edits or a truncated file")
 	c.Set("exhaustive", false)
 	c.Assume("truncation offsets: quick samples 3 per class (first, last, random), thorough 24; witness minimisation re-runs sub-histories at a deterministic probe set (every offset of the header classes, every byte of signature lines)")
 	return nil
